@@ -11,7 +11,7 @@ import os
 import re
 import subprocess
 
-from bridgegen import Prim, EnumT, StructT, Opt, OpaqueRef
+from bridgegen import Prim, EnumT, StructT, Opt, OpaqueRef, Slice, Str
 
 PRIM_W32 = {"i8": (1, 1), "u8": (1, 1), "DiplomatByte": (1, 1), "bool": (1, 1), "i16": (2, 2), "u16": (2, 2), "i32": (4, 4), "u32": (4, 4),
             "DiplomatChar": (4, 4), "f32": (4, 4), "isize": (4, 4), "usize": (4, 4), "i64": (8, 8), "u64": (8, 8), "f64": (8, 8)}
@@ -37,6 +37,8 @@ class Ref:
             return (4, 4)
         if isinstance(t, OpaqueRef):
             return (4, 4)      # wasm32 pointer
+        if isinstance(t, (Slice, Str)):
+            return (8, 4)      # wasm32 {ptr, len}
         if isinstance(t, StructT):
             return self.struct(t.name)[:2]
         if isinstance(t, Opt):
@@ -75,6 +77,8 @@ class Ref:
                     out.append((path, "enum" if isinstance(t.inner, EnumT) else "prim", t.inner, base + off, inner_s))
             elif isinstance(t, OpaqueRef):
                 out.append((path, "ptr", t, base + off, 4))
+            elif isinstance(t, (Slice, Str)):
+                out.append((path, "slice", t, base + off, 8))
             else:
                 out.append((path, "enum" if isinstance(t, EnumT) else "prim", t, base + off, s))
         return out
@@ -90,6 +94,8 @@ class Ref:
                 if k is None:
                     return None
                 n += k
+            elif isinstance(t, (Slice, Str)):
+                n += 2
             else:
                 n += 1
         return n
@@ -113,6 +119,8 @@ class Ref:
                     out.append(("chunk", path, k, ial, isz))
                 out.append(("flag", path + "?"))
                 out += [("pad",)] * (ial - 1)
+            elif isinstance(t, (Slice, Str)):
+                out += [("sliceptr", path), ("slicelen", path)]
             else:
                 out.append(("leaf", path))
             nxt = fields[i + 1][2] if i + 1 < len(fields) else size
@@ -174,6 +182,242 @@ class Ref:
         return out
 
 
+def has_slices(sd):
+    return any(isinstance(t, (Slice, Str)) for _, t in sd.fields)
+
+
+INT_W = {"u8": 1, "i8": 1, "DiplomatByte": 1, "u16": 2, "i16": 2, "u32": 4, "i32": 4, "DiplomatChar": 4, "usize": 4, "isize": 4, "u64": 8, "i64": 8}
+
+
+def slice_values(sd):
+    """{field: python value} used for the slice-struct probe: distinctive scalars, short element lists, non-ASCII strings"""
+    vals = {}
+    for i, (n, t) in enumerate(sd.fields):
+        if isinstance(t, Str):
+            vals[n] = "a\u00e9z" if t.enc != "utf16" else "a\U0001F600!"
+        elif isinstance(t, Slice):
+            e = t.elem.name
+            if e in ("f32", "f64"):
+                vals[n] = [1.5, -2.0]
+            elif e == "bool":
+                vals[n] = [True, False, True]
+            else:
+                w = INT_W[e]
+                signed = e[0] == "i"
+                xs = [int.from_bytes(bytes((0x11 * (k + 1) + 0x10 * j) & 0x7F for k in range(w)), "little") for j in range(3)]
+                vals[n] = [-x if (signed and j == 1) else x for j, x in enumerate(xs)]
+        elif isinstance(t, Prim):
+            e = t.name
+            if e == "bool":
+                vals[n] = True
+            elif e in ("f32", "f64"):
+                vals[n] = 2.5 + i
+            else:
+                w = INT_W[e]
+                v = int.from_bytes(bytes((0x21 + 0x11 * k + i) & 0x7F for k in range(w)), "little")
+                vals[n] = -v if e[0] == "i" else v
+        else:
+            raise ValueError("slice structs are flat: %s" % t.rust())
+    return vals
+
+
+def enc_scalar(e, v):
+    import struct as _st
+    if e == "bool":
+        return bytes([1 if v else 0])
+    if e == "f32":
+        return _st.pack("<f", v)
+    if e == "f64":
+        return _st.pack("<d", v)
+    w = INT_W[e]
+    return (int(v) % (1 << (8 * w))).to_bytes(w, "little")
+
+
+def slice_encoding(t, v):
+    """(bytes, element count, element width) of a slice / string value"""
+    if isinstance(t, Str):
+        if t.enc == "utf16":
+            b = v.encode("utf-16-le")
+            return b, len(b) // 2, 2
+        b = v.encode("utf-8")
+        return b, len(b), 1
+    e = t.elem.name
+    w = 1 if e == "bool" else 4 if e == "f32" else 8 if e == "f64" else INT_W[e]
+    return b"".join(enc_scalar(e, x) for x in v), len(v), w
+
+
+def js_token(e, v):
+    """JSON form of a scalar for the probe / as the probe reports it: bigints are "n<decimal>" """
+    if e in ("u64", "i64"):
+        return "n%d" % v
+    return v
+
+
+def slice_spec(mod, ref, opaque):
+    """spec['slice_structs']: values to build each flat slice struct from, and a memory image to read it back from"""
+    out = {}
+    for sd in mod.structs.values():
+        if not has_slices(sd):
+            continue
+        size, align, fields = ref.struct(sd.name)
+        vals = slice_values(sd)
+        fdescs = []
+        struct_bytes = bytearray(size)
+        data = []
+        addr = 768
+        for fname, t, off, s_, a_ in fields:
+            v = vals[fname]
+            if isinstance(t, Str):
+                fdescs.append({"name": fname, "kind": "slice", "value": {"str": v}})
+            elif isinstance(t, Slice):
+                fdescs.append({"name": fname, "kind": "slice", "value": {"arr": [js_token(t.elem.name, x) for x in v]}})
+            else:
+                fdescs.append({"name": fname, "kind": "prim", "value": js_token(t.name, v)})
+            if isinstance(t, (Slice, Str)):
+                b, n, w = slice_encoding(t, v)
+                addr = up(addr, 8)
+                data.append([addr, list(b)])
+                struct_bytes[off:off + 4] = addr.to_bytes(4, "little")
+                struct_bytes[off + 4:off + 8] = n.to_bytes(4, "little")
+                addr += len(b) + 8
+            else:
+                b = enc_scalar(t.name, v)
+                struct_bytes[off:off + len(b)] = b
+        meth = None
+        for m in mod.methods:
+            if m.owner == opaque and isinstance(m.ret, StructT) and m.ret.name == sd.name and len(m.params) == 1:
+                meth = {"js": m.name, "symbol": m.abi_name()}
+        out[sd.name] = {"fields": fdescs, "read": {"struct_bytes": list(struct_bytes), "data": data}, "method": meth}
+    return out
+
+
+def check_slice_image(sd, ref, img, images, what):
+    """[message] - `img` (bytes from the struct's start) must be the repr(C) image of slice_values(sd), slice pointers resolving in `images`"""
+    out = []
+    size, align, fields = ref.struct(sd.name)
+    vals = slice_values(sd)
+    covered = set()
+    for fname, t, off, s_, a_ in fields:
+        v = vals[fname]
+        if isinstance(t, (Slice, Str)):
+            covered |= set(range(off, off + 8))
+            b, n, w = slice_encoding(t, v)
+            p = int.from_bytes(bytes(img[off:off + 4]), "little")
+            ln = int.from_bytes(bytes(img[off + 4:off + 8]), "little")
+            if ln != n:
+                out.append("%s: field %s should store its length %d at bytes %d..%d; found %d (bytes %r)" % (what, fname, n, off + 4, off + 7, ln, img[off:off + 8]))
+            im = images.get(str(p))
+            if im is None:
+                out.append("%s: field %s should store a pointer to its elements at bytes %d..%d; found %d, which is no buffer the emitted code allocated (%r)"
+                           % (what, fname, off, off + 3, p, sorted(images)))
+            else:
+                if im["bytes"][:len(b)] != list(b) or im["size"] != len(b):
+                    out.append("%s: the buffer of field %s should hold %d bytes %r; the emitted code allocated %d bytes holding %r" % (what, fname, len(b), list(b), im["size"], im["bytes"][:len(b) + 4]))
+                if im["align"] != w:
+                    out.append("%s: the buffer of field %s (%d-byte elements) should be allocated with alignment %d; emitted code asks for %d" % (what, fname, w, w, im["align"]))
+        else:
+            b = enc_scalar(t.name, v)
+            covered |= set(range(off, off + len(b)))
+            if list(img[off:off + len(b)]) != list(b):
+                out.append("%s: field %s (%s) = %r should occupy bytes %d..%d with image %r; found %r" % (what, fname, t.name, v, off, off + len(b) - 1, list(b), list(img[off:off + len(b)])))
+    return out, covered
+
+
+def compare_slices(mod, ref, data, abi):
+    out = []
+    for sname, res in (data.get("slice_structs") or {}).items():
+        sd = mod.structs[sname]
+        size, align, fields = ref.struct(sname)
+        vals = slice_values(sd)
+        # ---- write ----
+        w = res.get("write")
+        if not w:
+            out.append((sname, "write: no probe result"))
+        else:
+            img = w["img"][16:16 + size]
+            msgs, covered = check_slice_image(sd, ref, img, w["images"], "write")
+            out += [(sname, m_) for m_ in msgs]
+            touched = {i - 16 for i, b in enumerate(w["img"]) if b != 0xAA}
+            if not touched <= covered or not {o for o in covered} >= touched:
+                out.append((sname, "write: the struct's byte image should cover exactly %r; emitted code writes %r" % (sorted(covered), sorted(touched))))
+        # ---- read ----
+        r = res.get("read")
+        if r is None:
+            out.append((sname, "read: no probe result"))
+        else:
+            for fname, t, off, s_, a_ in fields:
+                v = vals[fname]
+                if isinstance(t, Str):
+                    exp = v
+                elif isinstance(t, Slice):
+                    exp = [js_token(t.elem.name, x) for x in v]
+                else:
+                    exp = js_token(t.name, v)
+                got = r.get(fname)
+                same = got == exp or (isinstance(exp, list) and isinstance(got, list) and len(got) == len(exp) and all(a == b for a, b in zip(got, exp)))
+                if not same:
+                    out.append((sname, "read: field %s stored at offset %d (elements at the pointed-to address) should read back as %r; emitted code reads %r" % (fname, off, exp, got)))
+        # ---- argument list ----
+        got = res.get("args")
+        imgs = res.get("images") or {}
+        if res.get("has_method") and got is None:
+            out.append((sname, "argument list: the export was not called"))
+        elif got is not None:
+            recv_ok = [size, align] in (res.get("recv") or [])
+            if not recv_ok:
+                out.append((sname, "receive buffer for a returned %s should be allocated with size %d align %d; emitted code allocates %r" % (sname, size, align, res.get("recv"))))
+            # the receive buffer's pointer is an extra argument (first or last)
+            is_recv = lambda g: isinstance(g, int) and str(g) in imgs and [imgs[str(g)]["size"], imgs[str(g)]["align"]] == [size, align]
+            rest = list(got)
+            if rest and is_recv(rest[0]):
+                rest = rest[1:]
+            elif rest and is_recv(rest[-1]):
+                rest = rest[:-1]
+            if abi == "legacy":
+                descr = ref.args_legacy(sname)
+                if len(rest) != len(descr):
+                    out.append((sname, "argument list for a by-value %s parameter (legacy wasm ABI) should have %d slots %r; emitted code passes %d: %r"
+                                % (sname, len(descr), [d[0] + (":" + d[1] if len(d) > 1 else "") for d in descr], len(rest), rest)))
+                else:
+                    for d, g in zip(descr, rest):
+                        if d[0] == "pad":
+                            ok = g == 0
+                            exp = 0
+                        elif d[0] == "leaf":
+                            t = dict((f[0], f[1]) for f in fields)[d[1]]
+                            exp = js_token(t.name, vals[d[1]])
+                            ok = (g == exp) or (isinstance(exp, bool) and g == int(exp)) or (isinstance(g, bool) and int(g) == exp)
+                            if t.name in ("u32", "usize", "DiplomatChar") and isinstance(g, int) and isinstance(exp, int):
+                                ok = ok or (g % (1 << 32)) == exp         # large u32 values may be passed as negative i32
+                        elif d[0] == "slicelen":
+                            t = dict((f[0], f[1]) for f in fields)[d[1]]
+                            exp = slice_encoding(t, vals[d[1]])[1]
+                            ok = g == exp
+                        else:
+                            t = dict((f[0], f[1]) for f in fields)[d[1]]
+                            b, n, w_ = slice_encoding(t, vals[d[1]])
+                            im = imgs.get(str(g))
+                            exp = "pointer to %r" % list(b)
+                            ok = im is not None and im["bytes"][:len(b)] == list(b) and im["size"] == len(b) and im["align"] == w_
+                        if not ok:
+                            out.append((sname, "argument list for a by-value %s parameter (legacy wasm ABI): slot %s should be %r; emitted code passes %r (whole list %r, buffers %r)"
+                                        % (sname, d[0] + (":" + d[1] if len(d) > 1 else ""), exp, g, rest, {k_: (v_["size"], v_["align"], v_["bytes"][:12]) for k_, v_ in imgs.items()})))
+                            break
+            else:
+                cands = [g for g in rest if is_recv(g)]
+                ok_any = False
+                why = []
+                for g in cands:
+                    msgs, _cov = check_slice_image(sd, ref, imgs[str(g)]["bytes"], imgs, "js.abi=spec argument buffer")
+                    if not msgs:
+                        ok_any = True
+                    why += msgs
+                if not ok_any:
+                    out.append((sname, "js.abi=spec: a by-value %s should be passed as a pointer to a %d-byte, %d-aligned buffer holding its repr(C) image; emitted code passes %r (%s)"
+                                % (sname, size, align, got, "; ".join(why[:3]) or "no buffer of that size and alignment among the arguments")))
+    return out
+
+
 def spec_from_module(mod, opaque):
     def fdesc(name, t):
         if isinstance(t, Prim):
@@ -187,8 +431,10 @@ def spec_from_module(mod, opaque):
         if isinstance(t, Opt):
             return {"name": name, "kind": "opt", "inner": fdesc(name, t.inner)}
         raise ValueError(t)
-    spec = {"structs": {}, "enums": {e: 1 for e in mod.enums}, "opaque": opaque, "methods": {}}
+    spec = {"structs": {}, "enums": {e: 1 for e in mod.enums}, "opaque": opaque, "methods": {}, "slice_structs": {}}
     for sd in mod.structs.values():
+        if has_slices(sd):
+            continue          # flat structs with slice fields take the dedicated path (slice_spec / compare_slices)
         spec["structs"][sd.name] = {"fields": [fdesc(n, t) for n, t in sd.fields]}
     for m in mod.methods:
         if m.owner == opaque and m.ret is not None and isinstance(m.ret, StructT) and len(m.params) == 1 and isinstance(m.params[0][1], StructT) \
@@ -218,6 +464,7 @@ def result_returns(mod, ref, opaque):
 def probe(jsdir, mod, opaque, verif_lib):
     spec = spec_from_module(mod, opaque)
     spec["result_methods"] = [[n, sym] for n, sym, _ in result_returns(mod, Ref(mod), opaque)]
+    spec["slice_structs"] = slice_spec(mod, Ref(mod), opaque)
     with open(os.path.join(jsdir, "verif_spec.json"), "w") as fh:
         json.dump(spec, fh)
     with open(os.path.join(jsdir, "diplomat-wasm.mjs"), "w") as fh:
@@ -403,6 +650,7 @@ def compare(mod, ref, data, abi="legacy"):
         if n in exp_rr and exp_rr[n] not in got:
             out.append(("returns", "receive buffer of %s (a fallible/optional return) should be allocated with size %d (payload union + is_ok byte) and align %d; emitted code allocates %r"
                         % (n, exp_rr[n][0], exp_rr[n][1], got)))
+    out += compare_slices(mod, ref, data, abi)
     for e in data.get("errors", []):
         out.append(("probe", "emitted code threw while probing: %s" % e))
     return out
@@ -420,6 +668,8 @@ def layout_harness(mod, ref):
             return "i32"
         if isinstance(t, OpaqueRef):
             return "u32"
+        if isinstance(t, (Slice, Str)):
+            return "[u32; 2]"      # {ptr, len} with 32-bit pointers
         if isinstance(t, StructT):
             return t.name
         if isinstance(t, Opt):
